@@ -440,3 +440,40 @@ impl<S: Clone + tower::Service<Req>> Handles<S> {
         }
     }
 }
+
+/// Traffic through a *sibling* service built from the same layer value as the service under test, over an inner
+/// service of its own (a separate world, invisible in the trace): services built from one layer are independent
+/// unless the layer is documented to share (SharedCacheLayer, a retry budget, the adaptive algorithm).
+/// `n` calls are made and polled once; the first two resolve at once (an error, a success), the others stay in
+/// flight for the whole run (their futures are kept alive here and never polled again).
+pub struct Sibling {
+    _futs: Vec<std::pin::Pin<Box<dyn std::future::Future<Output = ()>>>>,
+    _w: W,
+}
+pub fn sibling_world() -> W {
+    let w: W = std::sync::Arc::new(std::sync::Mutex::new(World::new()));
+    w.lock().unwrap().immediate = vec![GOut::Err(1), GOut::Ok];
+    w
+}
+pub fn sibling_traffic<S>(mut svc: S, w: W, n: usize) -> Sibling
+where
+    S: tower::Service<Req>,
+    S::Future: 'static,
+{
+    let mut futs: Vec<std::pin::Pin<Box<dyn std::future::Future<Output = ()>>>> = vec![];
+    let wk = futures::task::noop_waker();
+    let mut cx = std::task::Context::from_waker(&wk);
+    for i in 0..n {
+        let _ = svc.poll_ready(&mut cx);
+        let f = svc.call(Req { id: 9000 + i as u32, key: 1 + (i as u32 % 2) });
+        let mut f: std::pin::Pin<Box<dyn std::future::Future<Output = ()>>> = Box::pin(async move {
+            let _ = f.await;
+        });
+        // a panic of the sibling's own making is none of the run's business
+        let r = std::panic::catch_unwind(std::panic::AssertUnwindSafe(|| f.as_mut().poll(&mut cx)));
+        if let Ok(std::task::Poll::Pending) = r {
+            futs.push(f);
+        }
+    }
+    Sibling { _futs: futs, _w: w }
+}
